@@ -36,6 +36,9 @@ Only these lexical normalisations are applied to copied text (each counted, see 
      is the same as applying `?` first and the constructor afterwards (Verus has no constructors as function values)
   N9 `debug_assert_eq!(A, B)` / `assert_eq!(A, B)` (two arguments) become `debug_assert!(A == B)` / `assert!(A == B)`: the same
      check without the formatted panic message (Verus has no specification for core::panicking::assert_failed)
+  N11 (only with option `option-map`) `RECV.map(|PAT| EXPR)` on an Option, with a closure body that is a plain expression (no
+     `return`, `?`, `break`, `continue`), becomes `(match RECV { Some(PAT) => Some(EXPR), None => None })`: Option::map with the
+     closure inlined (Verus has no closures with patterns as parameters); if RECV is not an Option the result does not compile
 No expression is rewritten otherwise. Ghost text (loop invariants, proof blocks) named in the unit template is spliced
 into bodies at loop ordinals / after exact statement texts, always on the same output line so that line numbers of the
 body still correspond to the source (annotation in place; ghost code only, erased at compile time).
@@ -394,7 +397,7 @@ class Normaliser:
         self.counts = {'N1_visibility': 0, 'N2_attrs_docs_dropped': 0, 'N3_ret_named_contract_spliced': 0,
                        'N4_cfg_statistics_or_allow_dropped': 0, 'N4b_cfg_attribute_dropped_code_kept': 0,
                        'N5_ref_pattern_desugared': 0,
-                       'N6_impl_iterator_return_type': 0, 'N7_tail_loop_break_value': 0, 'N8_map_constructor_then_try': 0, 'N9_assert_eq_as_assert': 0, 'G_ghost_splices': 0}
+                       'N6_impl_iterator_return_type': 0, 'N7_tail_loop_break_value': 0, 'N8_map_constructor_then_try': 0, 'N9_assert_eq_as_assert': 0, 'N11_option_map_closure_inlined': 0, 'G_ghost_splices': 0}
 
     def vis(self, s):
         def rep(m):
@@ -811,6 +814,29 @@ def expand(template_path, repo):
             body = norm.body(body)
             if not external:
                 body = norm.refpat(body)
+                # N11
+                if 'option-map' in opts:
+                    while True:
+                        sc11 = Scan(body)
+                        m11 = None
+                        for mm in re.finditer(r'(\b[a-z_]\w*(?:\s*\.\s*[a-z_]\w*(?:\([^()]*\))?)+?)\s*\.\s*map\(\s*\|', body):
+                            if sc11.is_code(mm.start()):
+                                m11 = mm
+                                break
+                        if not m11:
+                            break
+                        po = body.index('(', body.index('map', m11.end(1)))
+                        pc = sc11.match[po]
+                        inner = body[po + 1:pc]
+                        cm = re.match(r'\s*\|([^|]*)\|\s*(.*)$', inner, re.S)
+                        if not cm:
+                            raise AnchorLost(f'{rel}: fn {qn}: N11: closure not recognised')
+                        pat11, expr11 = cm.group(1).strip(), cm.group(2).strip()
+                        if re.search(r'\b(return|break|continue)\b|\?', expr11) or expr11.startswith('{'):
+                            raise AnchorLost(f'{rel}: fn {qn}: N11: closure body is not a plain expression')
+                        body = (body[:m11.start()] + f'(match {m11.group(1)} {{ Some({pat11}) => Some({expr11}), None => None }})'
+                                + body[pc + 1:])
+                        norm.counts['N11_option_map_closure_inlined'] += 1
                 # N9
                 while True:
                     sc9 = Scan(body)
